@@ -16,6 +16,14 @@ for path in sys.argv[1:]:
             m["detected_by"] = "not evaluated: patch does not apply at " + head
             json.dump(m, open(mp, "w"), indent=1); continue
         ok = ("suite-with-change: PASS" in blk and "demo-with-change: FAIL (expected)" in blk and "demo-without-change: PASS (expected)" in blk)
+        prev = m.get("confirmed_by_coordinator", {})
+        if prev.get("all_confirmed") and not ok:
+            # the repository moved on (a later fix: commit changed this code): keep the earlier
+            # confirmed evaluation, note that the change no longer manifests at this head
+            m.setdefault("history", []).append({"at": head.strip(), "note": "patch applies (3-way) but the demonstration no longer fails at this head: superseded by later fix: commits in the same code; earlier confirmed evaluation kept"})
+            json.dump(m, open(mp, "w"), indent=1)
+            print(mid, "SUPERSEDED at", head.strip()[:60])
+            continue
         m["confirmed_by_coordinator"] = {"cmd": "tools/eval_seeded.sh %s (fresh worktree; tools/confirm_mutant.sh)" % mid,
                                          "at": head.strip(),
                                          "suite_with_change": "PASS" if "suite-with-change: PASS" in blk else "FAIL",
@@ -42,6 +50,8 @@ for path in sys.argv[1:]:
             else:
                 how = "./check %s: rc=%d (no VIOLATION line)" % (cid, rc)
             res.append(how)
-        m["detected_by"] = " | ".join(res) if res else "not evaluated"
+        if res or m.get("detected_by", "not evaluated") == "not evaluated":
+            m.setdefault("history", []).append({"at": head.strip(), "detected_by": " | ".join(res) if res else "not evaluated"})
+            m["detected_by"] = " | ".join(res) if res else "not evaluated"
         json.dump(m, open(mp, "w"), indent=1)
         print(mid, "confirmed" if ok else "NOT-CONFIRMED", "|", m["detected_by"][:200])
